@@ -71,6 +71,7 @@ class History(object):
                               tape=case.get("tape") or [],
                               default_beh=case.get("default_beh"),
                               periodic=case.get("periodic"),
+                              spawn_cost=case.get("spawn_cost", 1e-6),
                               mode=case.get("mode", "daemon"))
         self._wref[0] = self.world
         self.reqs = {}            # op index -> Req
